@@ -339,28 +339,35 @@ fn sketchgrow(kind: char, regime_beyond: bool, cap: u32) -> Scenario {
 /// times, everything is invalidated, and the cache fills up again with many light entries.
 /// No aging step is due, so the key's estimate must not drop, and the key must win the
 /// contest against the never-read least recently used resident.
-fn sketchregrow(kind: char, regime_beyond: bool) -> Scenario {
+fn sketchregrow(kind: char, regime_beyond: bool, weigher: bool) -> Scenario {
     use mini_moka::sync::ConcurrentCacheExt;
-    let name: &'static str = match (kind, regime_beyond) {
-        ('S', true) => "sketchregrow:S:beyond",
-        ('S', false) => "sketchregrow:S:within",
-        _ => "sketchregrow:U",
+    let name: &'static str = match (kind, regime_beyond, weigher) {
+        ('S', true, true) => "sketchregrow:S:beyond",
+        ('S', false, true) => "sketchregrow:S:within",
+        (_, _, true) => "sketchregrow:U",
+        ('S', true, false) => "sketchregrow:S:beyond:unweighted",
+        ('S', false, false) => "sketchregrow:S:within:unweighted",
+        _ => "sketchregrow:U:unweighted",
     };
+    // a second key, looked up only AFTER invalidate_all() (while the cache is empty)
+    let hot2 = 900_001u32;
+    // the first population: five heavy entries, or (without a weigher) 500 unit entries
+    let first: Vec<(u32, u32)> = if weigher { (0..5).map(|i| (i, 100)).collect() } else { (2000..2500).map(|i| (i, 1)).collect() };
     let hot = 900_000u32;
     let looks = 5u8;
     let cap = 1000u32;
     let mut viol = Vec::new();
-    // (lowest estimate seen after the lookups, hot admitted?, first light key still there?, entry_count)
-    let r = with_deadline(60, move || -> (u8, bool, bool, u64) {
+    // (lowest estimate seen after the lookups, hot admitted?, first light key still there?, entry_count, hot2 admitted?)
+    let r = with_deadline(60, move || -> (u8, bool, bool, u64, bool) {
         let mut low = u8::MAX;
         if kind == 'S' {
-            let c = sc(cap as u64, true);
+            let c = sc(cap as u64, weigher);
             let clock = c.verif_install_mock_clock();
             if regime_beyond {
                 clock.advance(Duration::from_millis(1000));
             }
-            for i in 0..5 {
-                c.insert(i, 100);
+            for (k, w) in &first {
+                c.insert(*k, *w);
             }
             c.sync();
             for _ in 0..looks {
@@ -372,6 +379,10 @@ fn sketchregrow(kind: char, regime_beyond: bool) -> Scenario {
             c.invalidate_all();
             c.sync();
             low = low.min(c.verif_estimate(&hot));
+            for _ in 0..looks {
+                let _ = c.get(&hot2);
+            }
+            c.sync();
             for i in 10..10 + cap {
                 c.insert(i, 1);
                 if i % 25 == 24 {
@@ -383,12 +394,15 @@ fn sketchregrow(kind: char, regime_beyond: bool) -> Scenario {
             low = low.min(c.verif_estimate(&hot));
             c.insert(hot, 1);
             c.sync();
-            (low, c.contains_key(&hot), c.contains_key(&10), c.entry_count())
+            let (hot_in, first_in) = (c.contains_key(&hot), c.contains_key(&10));
+            c.insert(hot2, 1);
+            c.sync();
+            (low, hot_in, first_in, c.entry_count(), c.contains_key(&hot2))
         } else {
-            let mut c = uc(cap as u64, true);
+            let mut c = uc(cap as u64, weigher);
             let _clock = c.verif_install_mock_clock();
-            for i in 0..5 {
-                c.insert(i, 100);
+            for (k, w) in &first {
+                c.insert(*k, *w);
             }
             for _ in 0..looks {
                 let _ = c.get(&hot);
@@ -396,6 +410,9 @@ fn sketchregrow(kind: char, regime_beyond: bool) -> Scenario {
             low = low.min(c.verif_estimate(&hot));
             c.invalidate_all();
             low = low.min(c.verif_estimate(&hot));
+            for _ in 0..looks {
+                let _ = c.get(&hot2);
+            }
             for i in 10..10 + cap {
                 c.insert(i, 1);
                 if i % 25 == 24 {
@@ -404,15 +421,20 @@ fn sketchregrow(kind: char, regime_beyond: bool) -> Scenario {
             }
             low = low.min(c.verif_estimate(&hot));
             c.insert(hot, 1);
-            (low, c.contains_key(&hot), c.contains_key(&10), c.entry_count())
+            let (hot_in, first_in) = (c.contains_key(&hot), c.contains_key(&10));
+            c.insert(hot2, 1);
+            (low, hot_in, first_in, c.entry_count(), c.contains_key(&hot2))
         }
     });
     match r {
         None => viol.push(v("C09", "scale:call-did-not-return", format!("{name}: the scenario did not finish within 60 s"), name)),
         Some(Err(p)) => viol.push(v("C08", "scale:panic", format!("{name}: {}", panic_msg(&p)), name)),
-        Some(Ok((low, hot_in, first_in, ec))) => {
+        Some(Ok((low, hot_in, first_in, ec, hot2_in))) => {
+            if !hot2_in {
+                viol.push(v("C13", "scale:popular-newcomer-rejected:lookups-after-invalidate_all", format!("{name}: a key was looked up {looks} times right after invalidate_all() (the cache had been half full before and was empty then); when the cache is full of never-read unit-weight entries its insert must displace a resident, but it was rejected (entry_count() = {ec})"), name));
+            }
             if low < looks {
-                let d = format!("{name}: a key was looked up {looks} times in a weighted cache (capacity {cap}) half filled by five heavy entries; after invalidate_all() and while the cache filled up with unit-weight entries its estimate dropped to {low} although no aging step is due");
+                let d = format!("{name}: a key was looked up {looks} times in a cache (capacity {cap}) that was half full; after invalidate_all() and while the cache filled up with unit-weight entries its estimate dropped to {low} although no aging step is due");
                 viol.push(v("C14", "scale:estimate-dropped-without-aging", d.clone(), name));
                 viol.push(v("C13", "scale:estimate-dropped-without-aging", d, name));
             }
@@ -444,9 +466,11 @@ pub fn scenarios(filter: &str) -> Vec<Scenario> {
         }
     }
     if want("sketchregrow") {
-        out.push(sketchregrow('S', true));
-        out.push(sketchregrow('S', false));
-        out.push(sketchregrow('U', true));
+        for w in [true, false] {
+            out.push(sketchregrow('S', true, w));
+            out.push(sketchregrow('S', false, w));
+            out.push(sketchregrow('U', true, w));
+        }
     }
     if want("hugeweights") {
         out.push(hugeweights('S'));
